@@ -3,7 +3,7 @@ as_raw_sourcemap in u22) and the reader's contract (decode_regular_post, proved 
 from .u22_encode import encode_preamble
 
 NAME = 'u24_roundtrip'
-PROPS = ['C01', 'C03', 'C07', 'C14']
+PROPS = ['C01', 'C03', 'C07', 'C14', 'C18']
 MUTANTS = []
 
 
@@ -14,5 +14,11 @@ def build(u):
     emit_struct(u, 'src/types.rs', 'Token', keep_derive=True)
     for pr in ['shim_str_bytes.rs', 'shim_string_bytes.rs', 'shim_ascii.rs', 'shim_split.rs', 'shim_option_or.rs', 'derive_eq_rawtoken.rs']:
         u.prelude(pr)
+    import re
+    u.raw('IgnoredAny', '//@@ prelude ignored_any_stub\n//# assumes: serde::de::IgnoredAny is a unit marker\n#[verifier::external_body]\npub struct IgnoredAny { _x: u8 }\n//@@ endprelude\n')
+    text, origin = u.get_item_text('src/jsontypes.rs', r'(?m)^pub struct MinimalRawSourceMap\b', 'struct MinimalRawSourceMap')
+    text = re.sub(r'(?m)^\s*#\[(?:serde|derive)\([^\]]*\)\]\n', '', text)
+    u.emit_text('jsontypes::MinimalRawSourceMap', text, origin)
+    u.spec('detect_rule.rs')
     for sp in ['mappings.rs', 'mappings_dec.rs', 'mappings_inverse.rs', 'rmi_inverse.rs', 'rmi_roundtrip.rs', 'decode_regular.rs', 'hermes.rs', 'hermes_decode.rs', 'hermes_wrap.rs', 'doc_roundtrip.rs']:
         u.spec(sp)
